@@ -335,7 +335,12 @@ namespace
 	   && a->get_import () != nullptr
 	   && (a = a->get_import ().get ()));
 
-    return std::make_unique <value_die> (a->get_dwctx (), par_die, 0, d);
+    // The parent is reached along the same chain of imports as the
+    // DIE whose parent it is.
+    return std::make_unique <value_die>
+	(a->get_dwctx (),
+	 d == doneness::cooked ? a->get_import () : nullptr,
+	 par_die, 0, d);
   }
 }
 
